@@ -26,7 +26,7 @@ def plan(tier, seed):
 
 def thresholds(tier):
   t = {"types_built": 300, "values_checked": 5000, "layout_comparisons": 5000, "aliasing_probes": 20000,
-       "types_with_list_field": 100, "types_nested": 100, "hash_comparisons": 1000, "same_name_redeclarations": 200, "hash_after_field_update_probes": 2000, "ctor_arg_aliasing_probes": 5000, "histories_checked": 1000, "history_flips_of_pending_leaves": 2000, "ragged_array_declarations_refused": 100, "list_args_given_as_ints": 60, "ctor_container_arg_aliasing_probes": 1000}
+       "types_with_list_field": 100, "types_nested": 100, "hash_comparisons": 1000, "same_name_redeclarations": 200, "hash_after_field_update_probes": 2000, "ctor_arg_aliasing_probes": 5000, "histories_checked": 1000, "history_flips_of_pending_leaves": 2000, "ragged_array_declarations_refused": 100, "list_args_given_as_ints": 60, "ctor_container_arg_aliasing_probes": 1000, "intra_instance_aliasing_probes": 1500}
   if tier == "thorough":
     t = {k: v * 15 for k, v in t.items()}
   return t
@@ -186,6 +186,25 @@ def check_type(sh, shape, rng, case):
   z = cls()
   if int(z.to_bits().uint()) != 0:
     W("default-not-zero", got=int(z.to_bits().uint()))
+  # the leaves (and list rows) of ONE instance are separate objects, however the instance was made: default construction,
+  # constructor with arguments, from_bits, clone, deepcopy
+  v_ = gen_val(rng, shape, "rand")
+  for how_, obj_ in (("default-constructed", cls()), ("constructed", B.val(shape, v_)), ("from_bits", cls.from_bits(Bits(total, R.pack(shape, v_)))),
+                     ("clone", B.val(shape, v_).clone()), ("deepcopy", copy.deepcopy(B.val(shape, v_)))):
+    sh.count("intra_instance_aliasing_probes")
+    ids = {}
+    dup = None
+    for (pth, lo_, w_) in leaves:
+      k_ = id(leaf_obj(obj_, pth))
+      if k_ in ids: dup = (ids[k_], pth); break
+      ids[k_] = pth
+    if dup:
+      W("two-leaves-of-one-instance-are-the-same-object", how=how_, leaves=[list(dup[0]), list(dup[1])]); break
+    if how_ == "default-constructed":
+      # ... and it takes a value like any other instance
+      obj_ @= B.val(shape, v_)
+      if readback(shape, obj_) != v_ or int(obj_.to_bits().uint()) != R.pack(shape, v_):
+        W("imatmul-into-default-constructed-instance-differs", value=v_, got=readback(shape, obj_)); break
   vals = [gen_val(rng, shape, "zero"), gen_val(rng, shape, "ones")]
   hot = rng.sample(leaves, min(len(leaves), 6))
   vals += [gen_val(rng, shape, "walk", hot=h[0]) for h in hot]
